@@ -20,7 +20,7 @@ def build_lib():
     r = sh("cmake --build _build >/dev/null 2>&1 && cmake --build _build --target tests > /dev/null 2>&1; echo rc=$?")
     return "rc=0" in r.stdout
 def demo():
-    r = sh("g++ -std=c++14 -I include OUT/%s/demo.cpp -L _build/lib -ltins -lpcap -lpthread -o /tmp/seed-demo-%s && LD_LIBRARY_PATH=_build/lib timeout 120 /tmp/seed-demo-%s; echo demo_rc=$?" % (n, pid, pid))
+    r = sh("g++ -std=c++14 -I include -I _build/include OUT/%s/demo.cpp -L _build/lib -ltins -lpcap -lcrypto -lpthread -o /tmp/seed-demo-%s && LD_LIBRARY_PATH=_build/lib timeout 120 /tmp/seed-demo-%s; echo demo_rc=$?" % (n, pid, pid))
     return r.stdout.strip().splitlines()[-1]
 sh("git checkout -q -- . ")
 assert build_lib(), "baseline build failed"
